@@ -8,6 +8,9 @@ import Mathlib.Tactic.Linarith
 import Mathlib.Tactic.NormNum
 import Mathlib.Tactic.FieldSimp
 import Mathlib.Tactic.Push
+import Mathlib.Analysis.Calculus.Deriv.Pow
+import Mathlib.Analysis.Calculus.Deriv.Mul
+import Mathlib.Analysis.Calculus.Deriv.Add
 /-! Helper lemmas for C19, spline part (`chspline`, `bspline`). -/
 namespace PP.Spline
 open PP
@@ -227,5 +230,35 @@ theorem delta_self (eps : ℝ) (h : 0 ≤ eps) (X : SE3 ℝ) (hX : SE3.Valid X) 
   unfold delta; rw [SE3_inv_mul X hX, SE3Log_one eps h]
 
 theorem SE3_valid_one : SE3.Valid (SE3one : SE3 ℝ) := SO3_valid_one
+
+/-! ## small list/index helpers used by the property theorems -/
+
+theorem timeAt_knot (kk : Nat) (interval : ℝ) (i : Nat) (hk : 0 < kk) : timeAt kk interval (i * kk) = (i : ℝ) := by
+  unfold timeAt
+  rw [Nat.mul_div_cancel _ hk, Nat.mul_mod_left]
+  simp only [k_real, Nat.cast_zero, zero_mul, add_zero]
+
+theorem pad_left (G : SE3 ℝ) (N : Nat) (P : Nat → SE3 ℝ) :
+    pad N (fun j => SE3Mul G (P j)) = fun m => SE3Mul G (pad N P m) := by
+  funext m; unfold pad; split_ifs <;> rfl
+
+
+/-! ## derivative of a Hermite segment -/
+
+theorem cubic_hasDerivAt (a b c d t : ℝ) :
+    HasDerivAt (fun s : ℝ => a + b * s + c * s ^ 2 + d * s ^ 3) (b + 2 * c * t + 3 * d * t ^ 2) t := by
+  have hd : DifferentiableAt ℝ (fun s : ℝ => a + b * s + c * s ^ 2 + d * s ^ 3) t := by fun_prop
+  have h := hd.hasDerivAt
+  have e : deriv (fun s : ℝ => a + b * s + c * s ^ 2 + d * s ^ 3) t = b + 2 * c * t + 3 * d * t ^ 2 := by
+    simp (disch := fun_prop) only [deriv_fun_add, deriv_fun_mul, deriv_const, deriv_fun_pow, deriv_id'']
+    simp; ring
+  rw [e] at h; exact h
+
+theorem hermite_cubic (p0 m0 p1 m1 : ℝ) :
+    (fun t : ℝ => h00 t * p0 + h10 t * m0 + h01 t * p1 + h11 t * m1)
+      = fun t => p0 + m0 * t + (-3 * p0 - 2 * m0 + 3 * p1 - m1) * t ^ 2 + (2 * p0 + m0 - 2 * p1 + m1) * t ^ 3 := by
+  funext t
+  unfold h00 h10 h01 h11
+  simp only [k_real]; push_cast; ring
 
 end PP.Spline
